@@ -10,6 +10,7 @@ import json, os, subprocess, sys, shutil, time
 VERIF = os.path.dirname(os.path.dirname(os.path.abspath(__file__)))
 SEEDED = os.path.join(VERIF, 'seeded')
 PY = '/venv/bin/python'
+REPO = os.environ.get('HL7APY_REPO', '/repo')     # a snapshot of /repo when the seeds are re-run in parallel (vp run --with-repo)
 
 
 def sh(cmd, **kw):
@@ -81,11 +82,11 @@ def run(name, checks):
     d = os.path.join(SEEDED, name)
     m = load(name)
     checks = checks or [m['property']]
-    st = sh(['git', '-C', '/repo', 'status', '--porcelain']).stdout.strip()
+    st = sh(['git', '-C', REPO, 'status', '--porcelain']).stdout.strip()
     if st:
-        print('/repo is not clean:', st)
+        print(REPO + ' is not clean:', st)
         return 2
-    ap = sh(['git', '-C', '/repo', 'apply', os.path.join(d, 'patch.diff')])
+    ap = sh(['git', '-C', REPO, 'apply', os.path.join(d, 'patch.diff')])
     if ap.returncode != 0:
         print('patch does not apply:', ap.stdout)
         return 2
@@ -111,7 +112,7 @@ def run(name, checks):
             if replay:
                 print('   ', replay[:400])
     finally:
-        sh(['git', '-C', '/repo', 'checkout', '--', '.'])
+        sh(['git', '-C', REPO, 'checkout', '--', '.'])
         for c, txt in saved.items():
             open(os.path.join(ev, c + '.json'), 'w').write(txt)
     m.setdefault('check_runs', {})
